@@ -814,7 +814,7 @@ TOTAL_OPAQUE = (
     'std::fmt::Formatter::<\'a>::debug_struct_field1_finish', 'std::fmt::Formatter::<\'a>::debug_struct_field2_finish',
     'std::fmt::Formatter::<\'a>::debug_struct_field3_finish', 'std::fmt::Formatter::<\'a>::debug_struct_fields_finish',
     'std::fmt::Formatter::<\'a>::debug_tuple_field1_finish', 'std::fmt::Formatter::<\'a>::debug_tuple_field2_finish',
-    'std::fmt::Formatter::<\'a>::debug_tuple_field3_finish', 'std::fs::read',
+    'std::fmt::Formatter::<\'a>::debug_tuple_field3_finish', 'std::fs::read', 'serde::de::Error::custom',
 )
 
 
@@ -1438,6 +1438,7 @@ def m_to_string(I, st, args, dty, site):
             sv.ascii = True
             sv.digits = lo >= 0
             sv.tail_digits = True     # everything after the first char is a decimal digit
+            I.int_text[sv.ident] = a[1]     # provenance: this text is the decimal form of that value
         s.objs[oid] = ('String', sv)
     else:
         s.objs[oid] = ('String', I.fresh_str(s, 'to_string'))
@@ -1458,7 +1459,7 @@ FMTARG = 'core::fmt::rt::Argument'
 FMTARGS = 'std::fmt::Arguments'
 
 
-@model("core::fmt::rt::Argument::<'_>::new_display", "core::fmt::rt::Argument::<'_>::from_usize")
+@model_if(lambda n: n.endswith("fmt::rt::Argument::<'_>::new_display") or n.endswith("fmt::rt::Argument::<'_>::from_usize"))
 def m_fmt_arg(I, st, args, dty, site):
     a = deref(I, st, args[0])
     if a is not None and a[0] == 'obj':
@@ -2280,6 +2281,7 @@ def _str_range(I, st, sv, r, site, checked):
             alo, ahi = D.get_iv(s1, a[1])
             sub = ('str', sub_str(I, s1, sv, n[1], keep_first=(alo == ahi == 0), start=a))
             I.slice_of[sub[1].ident] = (sv.ident, a[1], e[1])     # provenance: which byte range of which string
+            I.slice_end_is_len[sub[1].ident] = (e[1] == sv.len)
     return (s1 if feas else None), sub, inb and bound, (a, e)
 
 
@@ -2430,6 +2432,11 @@ def m_str_parse(I, st, args, dty, site):
     if tgt.get('k') == 'adt':
         cand = f"<{tgt['path']} as std::str::FromStr>::from_str"
         if cand in I.bodies:
+            con = I.contracts.get(cand)
+            if con is not None:
+                r = con(I, st, [args[0]], dty, site)
+                if r is not None:
+                    return r
             return I.call_body(st, cand, [args[0]], site)
     return [(s1, ok(I.top(s1, tgt, 'parsed'))), (s2, err(I.top(s2, dty['args'][1], 'perr')))]
 
